@@ -68,7 +68,60 @@ def block_reader_shape(a, f):
 
 def raw_var_sources(f, var):
     """texts of all values assigned to local `var` in f"""
-    return [norm(n.value) for n in walk_local(f.node) if isinstance(n, ast.Assign) and any(isinstance(t, ast.Name) and t.id == var for t in n.targets)]
+    import copy
+
+    roles = dict(zip(f.pos_params[1:3], ("B", "L")))
+    out = []
+    for n in walk_local(f.node):
+        if isinstance(n, ast.Assign) and any(isinstance(t, ast.Name) and t.id == var for t in n.targets):
+            for alt in ifexp_alternatives(n.value):
+                alt = copy.deepcopy(alt)
+                for x in ast.walk(alt):
+                    if isinstance(x, ast.Name) and x.id in roles:
+                        x.id = roles[x.id]
+                out.append(norm(alt))
+    return out
+
+
+def ifexp_alternatives(e):
+    """the expression with every conditional expression resolved either way (tests dropped)"""
+    import copy
+
+    for n in ast.walk(e):
+        if isinstance(n, ast.IfExp):
+            res = []
+            for pick in (n.body, n.orelse):
+                class R(ast.NodeTransformer):
+                    def visit_IfExp(self, node):
+                        return copy.deepcopy(pick) if node is n else self.generic_visit(node)
+
+                res += ifexp_alternatives(R().visit(copy.deepcopy(e)) if False else _replace_node(e, n, pick))
+            return res
+    return [e]
+
+
+def _replace_node(root, old, new):
+    import copy
+
+    class R(ast.NodeTransformer):
+        def visit(self, node):
+            if node is old:
+                return copy.deepcopy(new)
+            return super().visit(node)
+
+    # work on a copy that preserves identity mapping: copy first, locate by position in walk order
+    order = list(ast.walk(root))
+    idx = next(i for i, x in enumerate(order) if x is old)
+    dup = copy.deepcopy(root)
+    target = list(ast.walk(dup))[idx]
+
+    class R2(ast.NodeTransformer):
+        def visit(self, node):
+            if node is target:
+                return copy.deepcopy(new)
+            return super().visit(node)
+
+    return R2().visit(dup)
 
 
 def check_block_writer(ctx, a, rule, codec, f):
@@ -95,7 +148,11 @@ def compress_exprs(f, payload):
         return []
     if payload.startswith("$"):
         return raw_var_sources(f, payload[1:])
-    return [payload]
+    try:
+        tree = ast.parse(payload, mode="eval").body
+    except SyntaxError:
+        return [payload]
+    return [norm(alt) for alt in ifexp_alternatives(tree)]
 
 
 def check_block_reader(ctx, a, rule, codec, f):
